@@ -29,7 +29,10 @@ type Codec interface {
 }
 
 // EmptyReadOK is implemented by consuming instances on which a read of an empty queue is a defined, successful operation.
-type EmptyReadOK interface{ EmptyReadOK() bool }
+type EmptyReadOK interface {
+	EmptyReadOK() bool
+	EmptyDefault() string // the rendering (Codec.Dec) of what such a read yields
+}
 
 func tokNum(tok string) int {
 	n := 0
@@ -186,12 +189,13 @@ func NewCustomIn(prefill int) Instance {
 
 const customInDefault = "<default: TRUE>"
 
-func (c *CustomIn) Kind() string      { return "raft-custom-input-channel" }
-func (c *CustomIn) CanWrite() bool    { return false }
-func (c *CustomIn) Consuming() bool   { return true }
-func (c *CustomIn) EmptyReadOK() bool { return true }
+func (c *CustomIn) Kind() string         { return "raft-custom-input-channel" }
+func (c *CustomIn) CanWrite() bool       { return false }
+func (c *CustomIn) Consuming() bool      { return true }
+func (c *CustomIn) EmptyReadOK() bool    { return true }
+func (c *CustomIn) EmptyDefault() string { return customInDefault }
 func (c *CustomIn) Configs(name string, wrap func(distsys.ArchetypeResource) distsys.ArchetypeResource) []distsys.MPCalContextConfigFn {
-	return []distsys.MPCalContextConfigFn{distsys.EnsureArchetypeRefParam(name, wrap(raftkvs.NewCustomInChan(c.ch, 2*time.Millisecond)))}
+	return []distsys.MPCalContextConfigFn{distsys.EnsureArchetypeRefParam(name, wrap(raftkvs.NewCustomInChan(c.ch, 8*time.Millisecond)))}
 }
 func (c *CustomIn) Enc(tok string) tla.Value { return tla.MakeString(tok) }
 func (c *CustomIn) Dec(v tla.Value) string {
@@ -294,7 +298,7 @@ var twoPCValue = regexp.MustCompile(`value=(.*?) cs=`)
 func (c *TwoPCCell) Observe(distsys.ArchetypeInterface, string) (string, error) {
 	// the Commit message reaches the replica on a goroutine of the resource: wait (bounded) for the value to settle
 	want := c.MObserve()
-	deadline := time.Now().Add(5 * time.Second)
+	deadline := time.Now().Add(8 * time.Second)
 	for {
 		got := ""
 		for i, r := range []*resources.TwoPCArchetypeResource{c.a, c.b} {
